@@ -357,10 +357,19 @@ func (wd *world) uuidArg(r *mrepo) (string, string) {
 			return ns[wd.r.Intn(len(ns))].uuid, "dup-any-repo"
 		}
 		return "", "none"
-	case x < 88:
+	case x < 86:
 		return wd.freshUUID()[:31], "malformed-31"
-	case x < 94:
+	case x < 90:
 		return "zz" + wd.freshUUID()[:30], "malformed-nonhex"
+	case x < 92:
+		return wd.freshUUID() + wd.freshUUID()[:2+2*wd.r.Intn(3)], "malformed-overlong"
+	case x < 95: // an existing uuid extended by hex digits: if taken for a uuid it makes the existing one ambiguous as a prefix
+		if r != nil && len(r.order) > 0 {
+			if u := r.order[wd.r.Intn(len(r.order))]; len(u) == 32 {
+				return u + []string{"00", "0011", "a"}[wd.r.Intn(3)], "malformed-overlong-extends-existing"
+			}
+		}
+		return wd.freshUUID() + "ab", "malformed-overlong"
 	default:
 		return strings.ToUpper(wd.freshUUID()), "uppercase"
 	}
